@@ -328,6 +328,14 @@ registry! {
    percentile_le5 [7] => |s, r| { percentile_contract::<5>(s, r) },
    percentile_le6 [8] => |s, r| { percentile_contract::<6>(s, r) },
    min_max_le6 [8] => |s, r| { min_max_contract::<6>(s, r) },
+   min_max_le8 [10] => |s, r| { min_max_contract::<8>(s, r) },
+   sum_le8 [10] => |s, r| { sum_contract::<8>(s, r) },
+   count_le8 [10] => |s, r| { count_contract::<8>(s, r) },
+   not_le8 [10] => |s, r| { not_contract::<8>(s, r) },
+   min_max_le16 [18] => |s, r| { min_max_contract::<16>(s, r) },
+   sum_le16 [18] => |s, r| { sum_contract::<16>(s, r) },
+   count_le16 [18] => |s, r| { count_contract::<16>(s, r) },
+   mean_le4 [6] => |s, r| { mean_contract::<4>(s, r) },
    sum_le6 [8] => |s, r| { sum_contract::<6>(s, r) },
    count_le6 [8] => |s, r| { count_contract::<6>(s, r) },
    not_le6 [8] => |s, r| { not_contract::<6>(s, r) },
